@@ -77,7 +77,7 @@ MUTANTS = [
     ("norm-axis-pair-unnormalised", {"C01": "A7"}, [(LA, "def norm_vjp(ans, x, ord=None, axis=None):\n    if isinstance(axis, tuple):\n        axis = tuple(a % x.ndim for a in axis)\n", "def norm_vjp(ans, x, ord=None, axis=None):\n")]),
     ("chooser-jvp-sorted-raw-axes", {"C02": "A7"}, [(NJ, "for ax in sorted(a % anp.ndim(x) for a in axis):", "for ax in sorted(axis):")]),
     ("transpose-argsort-raw-axes", {"C01": "A7"}, [(NV, "axes = anp.argsort([axis % len(axes) for axis in axes])", "axes = anp.argsort(axes)")]),
-    ("cumsum-axis-arithmetic", {"C01": "A7"}, [(NV, "            return reverse_axis(anp.cumsum(reverse_axis(g, axis), axis), axis)", "            return anp.flip(anp.cumsum(anp.flip(g, axis), axis), axis) if axis + 1 < x.ndim else reverse_axis(anp.cumsum(reverse_axis(g, axis), axis), axis)")]),
+    ("cumsum-axis-arithmetic", {"C01": "A7"}, [(NV, "            g_cumsum = reverse_axis(anp.cumsum(reverse_axis(g, axis), axis), axis)", "            g_cumsum = anp.flip(anp.cumsum(anp.flip(g, axis), axis), axis) if axis + 1 < x.ndim else reverse_axis(anp.cumsum(reverse_axis(g, axis), axis), axis)")]),
     ("raw-numpy-on-argument", {"C07": "A8"}, [(NV, "defvjp(anp.sin, lambda ans, x: lambda g: g * anp.cos(x))", "defvjp(anp.sin, lambda ans, x: lambda g: g * onp.cos(x))")]),
     ("raw-numpy-on-cotangent", {"C07": "A8"}, [(NV, "    return lambda g: anp.sum(g, axis=broadcast_axes, keepdims=True)", "    return lambda g: onp.sum(g, axis=broadcast_axes, keepdims=True)")]),
     ("raw-numpy-in-helper", {"C07": "A8"}, [(NV, "        x_minus_mean = anp.conj(x - anp.mean(x, axis=axis, keepdims=True))\n        return 2.0 * g_repeated", "        x_minus_mean = anp.conj(x - onp.mean(x, axis=axis, keepdims=True))\n        return 2.0 * g_repeated")]),
@@ -254,6 +254,14 @@ MUTANTS = [
     ("broadcast-to-axes-by-zip-without-rank-assert", {"C05": "A3.rank", "C01": "A3.rank"}, [(NV, "    assert len(old_shape) == len(new_shape), \"Can't handle extra leading dims\"\n    broadcast_axes = tuple(\n        onp.where(onp.logical_and(onp.array(old_shape) == 1, onp.array(new_shape) > 1))[0]\n    )", "    broadcast_axes = tuple(i for i, (old, new) in enumerate(zip(old_shape, anp.shape(ans))) if old == 1 and new > 1)")]),
     ("complex-space-zeros-promoted-with-python-complex", {"C13": "A9.pure", "C14": "A9.pure"}, [(NS, "    def zeros(self):\n        return np.zeros(self.shape, dtype=self.dtype)", "    def zeros(self):\n        return np.zeros(self.shape, dtype=np.promote_types(self.dtype, np.float32))")]),
     ("container-space-loses-subval", {"C12": "A1.spaces"}, [(BU, "    def _subval(self, xs, idx, x):\n        d = dict(xs.items())\n        d[idx] = x\n        return d\n", "")]),
+    ("cumsum-axis-branch-not-reshaped", {"C05": "A3.restore", "C01": "A3.restore"}, [(NV, "        else:\n            g_cumsum = anp.cumsum(g[::-1], axis)[::-1]\n        return anp.reshape(g_cumsum, anp.shape(x))", "        else:\n            g_cumsum = anp.reshape(anp.cumsum(g[::-1], axis)[::-1], anp.shape(x))\n        return g_cumsum")]),
+    ("sort-gradient-not-reshaped", {"C05": "A3.restore"}, [(NV, "    return lambda g: anp.reshape(unpermuter(g, sort_perm), anp.shape(x))", "    return lambda g: unpermuter(g, sort_perm)")]),
+    ("cumsum-reshaped-to-the-answers-shape", {"C05": "A3.restore"}, [(NV, "        return anp.reshape(g_cumsum, anp.shape(x))", "        return anp.reshape(g_cumsum, anp.shape(ans))")]),
+    ("defvjp-declares-all-none-functions-nograd", {"C17": "A6.notrace"}, [(CO, "from .tracer import Box, Node, getval, isbox, primitive, toposort, trace", "from .tracer import Box, Node, getval, isbox, primitive, register_notrace, toposort, trace"), (CO, "    argnums = kwargs.get(\"argnums\", count())\n    vjps_dict = {", "    argnums = kwargs.get(\"argnums\", count())\n    if vjpmakers and all(vjpmaker is None for vjpmaker in vjpmakers):\n        register_notrace(VJPNode, fun)\n    vjps_dict = {")]),
+    ("defjvp-grows-the-notrace-table", {"C17": "A6.notrace"}, [(CO, "from .tracer import Box, Node, getval, isbox, primitive, toposort, trace", "from . import tracer as _tracer\nfrom .tracer import Box, Node, getval, isbox, primitive, toposort, trace"), (CO, "def def_linear(fun):\n", "def def_linear(fun):\n    _tracer.notrace_primitives[VJPNode].discard(fun)\n    if fun is None:\n        _tracer.notrace_primitives[JVPNode].add(fun)\n")]),
+    ("inner-prod-second-slot-gets-the-first-slots-rule", {"C03": "A5.selfread", "C04": "A5.selfread", "C01": "A5.selfread"}, [(CO, "    lambda ans, vs, x, y: lambda g: vs.covector(vs.scalar_mul(x, g)),\n)", "    lambda ans, vs, x, y: lambda g: vs.covector(vs.scalar_mul(y, g)),\n)")]),
+    ("multiply-second-slot-multiplies-by-itself", {"C01": "A5.selfread", "C04": "A5.selfread"}, [(NV, "    lambda ans, x, y: unbroadcast_f(y, lambda g: x * g),", "    lambda ans, x, y: unbroadcast_f(y, lambda g: y * g),")]),
+    ("rfft-forward-scale-copied-from-backward", {"C09": "A6.distinct", "C01": "A6.distinct"}, [(FF, "    elif norm == \"forward\":\n        fac *= N", "    elif norm == \"forward\":\n        fac /= N")]),
 ]
 
 BENIGN = [
@@ -330,6 +338,12 @@ BENIGN = [
     ("squeeze-positional-axis", [(NV, "return lambda g: anp.squeeze(g, axis=tuple(range(ndmin - scarray_ndim)))", "return lambda g: anp.squeeze(g, tuple(range(ndmin - scarray_ndim)))")]),
     ("stack-normalise-with-modulo", [(NW, "    if axis < 0:\n        axis += result_ndim", "    axis = axis % result_ndim")]),
     ("where-with-zeros-like", [(NV, "    lambda ans, c, x=None, y=None: unbroadcast_f(x, lambda g: anp.where(c, g, anp.zeros(g.shape))),", "    lambda ans, c, x=None, y=None: unbroadcast_f(x, lambda g: anp.where(c, g, anp.zeros_like(g))),")]),
+    ("cumsum-reshape-by-method-and-vspace-shape", [(NV, "        return anp.reshape(g_cumsum, anp.shape(x))", "        return g_cumsum.reshape(vspace(x).shape)")]),
+    ("sort-gradient-reshape-via-local-shape", [(NV, "    sort_perm = anp.argsort(x, axis, kind, order)\n    return lambda g: anp.reshape(unpermuter(g, sort_perm), anp.shape(x))", "    sort_perm = anp.argsort(x, axis, kind, order)\n    x_shape = anp.shape(x)\n    return lambda g: anp.reshape(unpermuter(g, sort_perm), x_shape)")]),
+    ("nograd-declarations-through-a-module-helper", [(NV, "for fun in nograd_functions:\n    register_notrace(VJPNode, fun)", "declare_nograd = partial(register_notrace, VJPNode)\nfor fun in nograd_functions:\n    declare_nograd(fun)")]),
+    ("inner-prod-rule-takes-the-space-from-its-own-argument", [(CO, "    lambda ans, vs, x, y: lambda g: vs.covector(vs.scalar_mul(x, g)),\n)", "    lambda ans, vs, x, y: lambda g: vspace(y).covector(vs.scalar_mul(x, g)),\n)")]),
+    ("rfft-norm-scales-from-a-table", [(FF, "    if norm is None or norm == \"backward\":\n        fac /= N\n    elif norm == \"forward\":\n        fac *= N\n    elif norm != \"ortho\":\n        raise NotImplementedError(\"Real FFT gradient not implemented for norm={}\".format(norm))\n    return fac", "    scales = {None: 1.0 / N, \"backward\": 1.0 / N, \"ortho\": 1.0, \"forward\": N}\n    if norm not in scales:\n        raise NotImplementedError(\"Real FFT gradient not implemented for norm={}\".format(norm))\n    return fac * scales[norm]")]),
+    ("dot-rule-metadata-through-map", [(NV, "def dot_vjp_0(ans, A, B):\n    A_meta, B_meta = anp.metadata(A), anp.metadata(B)\n    return lambda g: match_complex(A, dot_adjoint_0(B, g, A_meta, B_meta))", "def dot_vjp_0(ans, A, B):\n    metas = [anp.metadata(operand) for operand in (A, B)]\n    return lambda g: match_complex(A, dot_adjoint_0(B, g, *metas))")]),
 ]
 
 
